@@ -318,7 +318,7 @@ pub fn large_cfg(kind: Kind, bounds: bool, rng: &mut impl RngCore, thorough: boo
             Cfg { max_degree, num_vars: None, supported_degree, supported_hiding: range(rng, 1, 3), enforced }
         }
         Kind::Multivariate => Cfg { max_degree: 11, num_vars: Some(4), supported_degree: 11, supported_hiding: 1, enforced: None },
-        Kind::Multilinear => Cfg { max_degree: 1, num_vars: Some(if rng.next_u32() % 2 == 0 { 10 } else { 12 }), supported_degree: 1, supported_hiding: 1, enforced: None },
+        Kind::Multilinear => Cfg { max_degree: 1, num_vars: Some([10usize, 11, 12, 12][(rng.next_u32() % 4) as usize]), supported_degree: 1, supported_hiding: 1, enforced: None },
     })
 }
 
@@ -670,7 +670,9 @@ impl Scheme for HyraxS {
     const HIDING: bool = false;
     const ALWAYS_RNG: bool = true;
     fn gen_cfg(rng: &mut impl RngCore, thorough: bool) -> Cfg {
-        if let Some(c) = large_cfg(Self::KIND, Self::BOUNDS, rng, thorough) {
+        if let Some(mut c) = large_cfg(Self::KIND, Self::BOUNDS, rng, thorough) {
+            // Hyrax needs an even number of variables
+            c.num_vars = c.num_vars.map(|v| v + v % 2);
             return c;
         }
         let nv = 2 * range(rng, 0, if thorough { 4 } else { 3 });
